@@ -50,7 +50,7 @@ func init() {
 				{Name: "A", Ops: []Op{{Kind: "pub0", Topic: "w/a", Msg: []byte("A-0123456789-payload")}}},
 				{Name: "D", Ops: []Op{{Kind: "pub2", Topic: "w/d", Msg: []byte("D-payload")}, {Kind: "pub1", Topic: "w/e", Msg: []byte("E-payload")}}},
 			},
-			Faults:  Faults{Cut: true, NoResponse: true},
+			Faults:  Faults{Cut: true, NoResponse: true, WriteCuts: cutsEdge, WriteTimeout: true, WriteErr: true},
 			Horizon: 1500,
 			Final: func(w *World) {
 				w.monitorWire()
